@@ -291,7 +291,8 @@ def check_graph(ctx, c):
             w, h, d, per, dict(got_edges), dict(want_edges)), key="graph:adjacency")
     gsys = system.copy()
     gsys.space = graph
-    dt = stable_dt(x, sc)
+    from vlib.ratelaw import tame_dt
+    dt = tame_dt(model, flags)
     N = 20
     runs = []
     for s_ in (system, gsys):
